@@ -29,6 +29,12 @@ CHECKS.update({
             "§3-C18", "foca 0.19 notification contract; identity = (actor, timestamp) with one address and cluster"),
 })
 
+CHECKS.update({
+    "C03": (True, "exploration", "SimCluster receiver observed after every delivery/apply step; tag all-or-nothing, applied=>covered, covered+drained=>applied, buffers cleared, final==reference",
+            "Runtime monitor: origin transactions of k tagged rows are cut by the harness into partitions, overlapping, duplicated, contained and single-change chunks and delivered to a real node in seeded orders/batchings mixed with other versions and actors; the node's tables are read after every delivery and apply step (per-tag row count in {0,k}; visible => delivered seq ranges cover 0..=last_seq), and after draining the apply triggers (known from the pmc.apply_trigger hook) and the real clear loop everything must be visible, buffers and partial records gone, and the result equal to the unchunked reference.",
+            "§3-C03", "bounded restatement of 'eventually' (same execution, after apply/clear drained); relay-supplied chunks with holes are exercised by C01's workload"),
+})
+
 NOT_YET = {
 }
 
